@@ -110,7 +110,16 @@ def reg_serialize_raw(reg, prop):
             "implies((msg.send_flags & 16) != 0 and 0 <= j0 and j0 < len(msg.acks), "
             "be32at(result, 6 + len(val(msg.raw_body)) + 4 * j0) == msg.acks[len(msg.acks) - 1 - j0])",
         ],
-        loops={"for ack in reversed(msg.acks)": {"inv": [
+        loops={"for ack in reversed(msg.acks)": {
+            # one iteration appends four bytes and leaves everything before them alone: stated per byte of the ack word the
+            # universally quantified index j0 points at, so that the preservation of the invariant is plain arithmetic
+            "ghost_pre": {"_b0": "writer.buffer"},
+            "lemmas": [f"implies(0 <= j0 and j0 < _i, writer.buffer[6 + len(val(msg.raw_body)) + 4 * j0 + {t}] == "
+                       f"_b0[6 + len(val(msg.raw_body)) + 4 * j0 + {t}])" for t in range(4)]
+                      + ["len(writer.buffer) == len(_b0) + 4"]
+                      + [f"writer.buffer[len(_b0) + {t}] == (ack // {256 ** (3 - t)}) % 256" for t in range(4)],
+            "inv": [
+            "writer.endianness == '!'",
             "len(writer.buffer) == 6 + len(val(msg.raw_body)) + 4 * _i",
             "writer.buffer[0] == msg.send_flags and writer.buffer[5] == len(msg.raw_extra)",
             "be32at(writer.buffer, 1) == ite(is_none(msg.packet_id), 0, val(msg.packet_id))",
@@ -162,7 +171,13 @@ def reg_parse_header(reg, prop):
             f"implies((data[0] & 16) != 0 and 0 <= j0 and j0 < len(result.acks), result.acks[j0] == be32at(data, {acks_at}))",
         ],
         loops={0: {"havoc_sorts": {"acks": "IntList"},
-                   "inv": ["len(acks) == _i", "reader._pos == msg_size + 4 * _i", "reader._len == len(data)", "reader._buffer == data",
+                   # the postcondition reads the invariant at the mirrored index (acks come out in reverse wire order)
+                   "ghost_instances": {"j0": ["_i - 1 - j0"]},
+                   "ghost_pre": {"_a0": "acks"},
+                   "lemmas": ["implies(0 <= j0 and j0 < _i, acks[_i - j0] == _a0[_i - 1 - j0])",
+                              "acks[0] == be32at(data, msg_size + 4 * _i)", "len(acks) == len(_a0) + 1"],
+                   "inv": ["reader.endianness == '!' and not reader.pod",
+                           "len(acks) == _i", "reader._pos == msg_size + 4 * _i", "reader._len == len(data)", "reader._buffer == data",
                            "msg_size == len(data) - 1 - 4 * num_acks", "num_acks == data[len(data) - 1]", "msg_size > 6",
                            # acks are inserted at the head: after _i reads, acks[k] is the (_i-1-k)-th word read
                            "implies(0 <= j0 and j0 < _i, acks[_i - 1 - j0] == be32at(data, msg_size + 4 * j0))",
